@@ -58,6 +58,7 @@ var namedWitnesses = map[string]interface{}{
 	"C15/eof-comments-dropped":                    c15Case{Src: "let a; //#1# x\n//#2# y\n", Src2: "let a; //#1# p\n//#2# q\n", Plain: "let a;\n\n", Comments: []c15Comment{{Marker: 1, Text: "#1# x", Text2: "#1# p", Trailing: true, Next: ""}, {Marker: 2, Text: "#2# y", Text2: "#2# q", Next: ""}}},
 	"C02/lone-cr-line-terminator":                 c02Case{Tree: prog(ir.N(ir.Let, "a", id("b")), ir.N(ir.Let, "c", id("d")), fdecl("f", blk(ir.N(ir.Return, "", nil), es(id("e"))))), Srcs: []string{"let a=b \rlet c=d\rfunction f(){return\re}", "let a=b;// x\rlet c=d;function f(){return;e}"}},
 	"C03/dangling-else":                           c03Case{Tree: prog(ir.N(ir.If, "", id("a"), ir.N(ir.If, "", id("b"), es(id("c")), nil), es(id("d"))))},
+	"C01/escaped-directive-becomes-directive":     c01Case{Src: "'use\\x20strict'; x = 1; print(x)"},
 	"C01/html-comment-opener":                     c01Case{Src: "let a = 1; let b = 2; print(a < !--b, b)"},
 	"C07/escaped-digit":                           c07Case{Lits: []c07Lit{{Src: "\"\\0\\u{30}\""}}},
 }
